@@ -15,7 +15,7 @@
 
 use std::cell::RefCell;
 use std::ops::{Deref, DerefMut};
-use std::sync::{Arc, LockResult, PoisonError};
+use std::sync::{Arc, LockResult, PoisonError, TryLockError, TryLockResult};
 
 /// A scheduling-relevant event. The payload identifies the mutex (its address).
 #[derive(Copy, Clone, Debug, PartialEq, Eq)]
@@ -25,6 +25,15 @@ pub enum Event {
 
     /// The calling thread has just released the mutex.
     AfterUnlock(usize),
+
+    /// The calling thread is about to *try* to acquire the mutex (`try_lock`): unlike
+    /// `BeforeLock`, the attempt never waits, it fails if another thread holds the mutex.
+    BeforeTryLock(usize),
+
+    /// The calling thread has just acquired the mutex (by `lock` or a successful `try_lock`).
+    /// Lets a scheduler that explores `try_lock` failures deschedule the holder inside its
+    /// critical section.
+    Locked(usize),
 }
 
 /// The callback type.
@@ -64,7 +73,7 @@ impl<T> Mutex<T> {
     pub fn lock(&self) -> LockResult<MutexGuard<'_, T>> {
         let addr = self.addr();
         fire(Event::BeforeLock(addr));
-        match self.0.lock() {
+        let r = match self.0.lock() {
             Ok(g) => Ok(MutexGuard {
                 inner: Some(g),
                 addr,
@@ -73,7 +82,47 @@ impl<T> Mutex<T> {
                 inner: Some(p.into_inner()),
                 addr,
             })),
-        }
+        };
+        fire(Event::Locked(addr));
+        r
+    }
+
+    /// As `std::sync::Mutex::try_lock`, firing `Event::BeforeTryLock` first (and `Event::Locked`
+    /// if the attempt succeeds). Not used by `chunker.rs` at present; here so that code which
+    /// starts to use it still builds, and is still scheduled, with the feature on.
+    pub fn try_lock(&self) -> TryLockResult<MutexGuard<'_, T>> {
+        let addr = self.addr();
+        fire(Event::BeforeTryLock(addr));
+        let r = match self.0.try_lock() {
+            Ok(g) => Ok(MutexGuard {
+                inner: Some(g),
+                addr,
+            }),
+            Err(TryLockError::Poisoned(p)) => {
+                Err(TryLockError::Poisoned(PoisonError::new(MutexGuard {
+                    inner: Some(p.into_inner()),
+                    addr,
+                })))
+            }
+            Err(TryLockError::WouldBlock) => return Err(TryLockError::WouldBlock),
+        };
+        fire(Event::Locked(addr));
+        r
+    }
+
+    /// As `std::sync::Mutex::is_poisoned`.
+    pub fn is_poisoned(&self) -> bool {
+        self.0.is_poisoned()
+    }
+
+    /// As `std::sync::Mutex::get_mut` (exclusive access: no locking, no event).
+    pub fn get_mut(&mut self) -> LockResult<&mut T> {
+        self.0.get_mut()
+    }
+
+    /// As `std::sync::Mutex::into_inner`.
+    pub fn into_inner(self) -> LockResult<T> {
+        self.0.into_inner()
     }
 }
 
